@@ -65,6 +65,15 @@ def toApp (s : Sbx) (rep : Nat) : Nat :=
 def toGuest (s : Sbx) (a : Nat) : Nat :=
   if a = 0 then 0 else ((a + W64 - s.region.base) % W64) % 2 ^ (8 * s.ptrBytes)
 
+/-- the two checked entry points for raw application pointers (`assign_raw_pointer`,
+`UNSAFE_accept_pointer`): `dynamic_check(is_pointer_in_sandbox_memory(p))`, then the address is
+stored as given (a `tainted`) or as its sandbox representation (a `tainted_volatile`). -/
+def acceptPointer (s : Sbx) (a : Nat) : Option Nat :=
+  if s.region.contains a then some a else none
+
+def acceptPointerVol (s : Sbx) (a : Nat) : Option Nat :=
+  if s.region.contains a then some (toGuest s a) else none
+
 /-- base recovered from an example address by the context-free entry points -/
 def baseOfExample (k ex : Nat) : Nat := ex / 2 ^ k * 2 ^ k
 
